@@ -63,7 +63,7 @@ def unsequenced(dn, ln, tn):
 def g_nest(tier):
     # (16-bit destinations of composite 8-bit values are a known-broken area, covered by expr/prec: not repeated here)
     dests = [('va', lambda: V('va')), ('X', lambda: X), ('Y', lambda: Y), ('a1', lambda: Index('arr', C(1))), ('aY', lambda: Index('arr', Y)), ('sa', lambda: V('sa'))]
-    lefts = [('vb', lambda: V('vb')), ('aY', lambda: Index('brr', Y)), ('k3', lambda: C(3)), ('X', lambda: X)]
+    lefts = [('vb', lambda: V('vb')), ('aY', lambda: Index('brr', Y)), ('k3', lambda: C(3)), ('X', lambda: X), ('avb', lambda: Index('brr', V('vb')))]
     for (dn, d), op, (ln, l), (tn, t, fn) in itertools.product(dests, ['+', '-', '&', '|'], lefts, nested_terms()):
         pid = 'deep/nest/%s=%s%s(%s)' % (dn, ln, op, tn)
         if unsequenced(dn, ln, tn) or not keep(pid, tier, 30): continue
@@ -476,6 +476,11 @@ def g_flagctx(tier):
         base = 'deep/flagctx/%s/%s' % (sn, cn)
         if not keep(base, tier, 50): continue
         for zn, zt in (('nz', lambda: Z()), ('z', lambda: B('==', Z(), C(0)))):
+            if cn == 'vd':
+                # (once per setter) the zero test directly after the statement, as a condition and as a loop condition
+                yield mkprog('deep/flagctx/%s/direct/%s' % (sn, zn), [s(), If(zt(), two(), three())], funcs=fn)
+                yield mkprog('deep/flagctx/%s/direct-while/%s' % (sn, zn), [s(), A(V('hc'), C(2)), While(B('&&', zt(), V('hc')), ExprS(Inc('--', False, V('hc')))), A(V('sc'), C(1))], funcs=fn)
+                yield mkprog('deep/flagctx/%s/direct-tern/%s' % (sn, zn), [s(), A(V('sc'), Tern(zt(), C(2), C(3)))], funcs=fn)
             yield mkprog(base + '/else/' + zn, [s(), If(cnd(), one(), If(zt(), two(), three()))], funcs=fn)
             yield mkprog(base + '/then/' + zn, [s(), If(cnd(), If(zt(), one(), two()), three())], funcs=fn)
             yield mkprog(base + '/after/' + zn, [s(), If(cnd(), A(V('hc'), C(1))), If(zt(), two(), three())], funcs=fn)
